@@ -326,3 +326,87 @@ func VerifC16Trace() {
 	}
 	verifrt.Reached("end")
 }
+
+// ---------------------------------------------------------------------------
+// Failing-expression forms: the failing operator has sub-expressions the
+// optimizer folds (every literal kind, on the left, on the right, nested,
+// unary, ternary, builtin calls on constants), placed at four statement sites,
+// at call depth 0 and 2.
+
+var verifC16Forms = [...]string{
+	`6 * 7 / x`,
+	`(1 + 2) % x`,
+	`10u - 3u / uint(x)`,
+	`'a' + 1 / x`,
+	`"a" + "b" - x`,
+	`-(2 + 3) / x`,
+	`[1 + 1, 2][x + 5]`,
+	`{a: 2 * 3}.a.b.c`,
+	`int("4" + "2") / x`,
+	`(true ? 8 : 9) / x`,
+	`x / (3 - 3)`,
+	`len("ab" + "c") / x`,
+	`1 + 2 + x / (x * 1)`,
+	`(2 << 1 | 1) / x + 1`,
+	`!false && 5 / x`,
+	`1 / x + 2 * 3`,
+}
+
+var verifC16Sites = [...]string{"r = EXPR", "return EXPR", "r = id(EXPR)", "if (EXPR) { r = 1 }"}
+
+func verifC16FormProgram(form, site int) string {
+	st := strings.Replace(verifC16Sites[site], "EXPR", verifC16Forms[form], 1)
+	return `param a
+id := func(v) { return v }
+f2 := func(x) {
+	r := 0
+	` + st + `
+	return r
+}
+f1 := func(x) {
+	v := f2(x)
+	return v
+}
+if a > 3 {
+	w := f1(a - 4)
+	return w
+}
+x := a
+r := 0
+` + st + `
+return r`
+}
+
+// VerifC16Forms: trace lines for the failing-expression forms.
+func VerifC16Forms() {
+	src := verifC16FormProgram(verifrt.Param("form"), verifrt.Param("site"))
+	k := verifrt.Choice("k", 2) * 2
+	a := verifrt.Int64("a")
+	verifrt.Assume(a >= -1 && a <= 6)
+	args := []Object{Int(a)}
+	full := strings.Repeat("\n", k) + src
+	want, failed, unsup := VerifRefLines(full, args...)
+	verifrt.AssertMsg(unsup == "", "reference-interpreter-supports-program", unsup)
+	if unsup != "" {
+		return
+	}
+	for opt := 0; opt < 2; opt++ {
+		bc, err := Compile([]byte(full), CompilerOptions{NoOptimize: opt == 0})
+		verifrt.AssertMsg(err == nil, "compiles", full)
+		if err != nil {
+			continue
+		}
+		_, rerr := NewVM(bc).SetRecover(true).Run(nil, args...)
+		verifrt.AssertMsg((rerr != nil) == failed, "fails-iff-reference-fails", full)
+		if rerr != nil && failed {
+			got, ok := verifC16Lines(rerr)
+			verifrt.Assert(ok, "error-is-a-runtime-error")
+			verifrt.AssertMsg(verifSameLines(got, want), "trace-lines", full)
+			re := rerr.(*RuntimeError)
+			for _, p := range re.StackTrace() {
+				verifrt.AssertMsg(p.Filename == "(main)" && p.Offset >= 0 && p.Offset <= len(full), "position-inside-file", full)
+			}
+		}
+	}
+	verifrt.Reached("end")
+}
